@@ -33,7 +33,7 @@ def closures_in(g, root, seen=None, out=None):
     seen = seen if seen is not None else set()
 
     def visit(p, path):
-        if p.kind in ("take_while", "take_till") and isinstance(p.args[0], Clo):
+        if p.kind in ("take_while", "take_till") and p.args and not isinstance(p.args[0], gram.P):
             out.append(p.args[0])
         if p.kind == "ref" and p.extra in g and p.extra not in seen:
             seen.add(p.extra)
@@ -71,7 +71,12 @@ def build(prog, g, root="version", extra_chars="vV.-+"):
     preds["ref_alnum"] = alnum
     classes_cp = {}
     for clo in closures_in(g, root):
-        cps = char_class(prog, clo, REPS)
+        if isinstance(clo, Clo):
+            cps = char_class(prog, clo, REPS)
+        else:                           # literal character set
+            cps = set(clo.chars)
+            if any(c >= 0x100 for c in cps):
+                raise Inconclusive("character set with code points above U+00FF")
         classes_cp[clo.key] = cps
         preds[("closure", clo.key)] = (lambda cp, cps=cps: cp in cps)
     class_of, k, classes, reps = peg.build_alphabet(preds, REPS)
@@ -224,7 +229,7 @@ def ident_class(rep, prog, g):
         return
     for clo in clos:
         try:
-            cps = char_class(prog, clo, REPS)
+            cps = char_class(prog, clo, REPS) if isinstance(clo, Clo) else set(clo.chars)
         except Inconclusive as e:
             rep.inconc("identifier class: " + e.reason, e.where)
             continue
